@@ -943,8 +943,8 @@ impl World {
                 }
             }
             Op::Inject { dst_p, port, generator, delay_us } => crate::hostile::inject_op(self, *dst_p, *port, generator, *delay_us),
-            Op::ForeignSpdp { id, dst_p, domain, domain_in_msg, tag, lease_ms, every_ms, count } => {
-                crate::hostile::foreign_spdp(self, *id, *dst_p, *domain, *domain_in_msg, tag.clone(), *lease_ms, *every_ms, *count).await
+            Op::ForeignSpdp { id, dst_p, domain, domain_in_msg, tag, lease_ms, every_ms, count, sn0 } => {
+                crate::hostile::foreign_spdp(self, *id, *dst_p, *domain, *domain_in_msg, tag.clone(), *lease_ms, *every_ms, *count, *sn0).await
             }
         }
     }
